@@ -474,6 +474,18 @@ func (ev *Eval) equal(a, b *Val) string {
 	if a.K == KSeq && b.K == KSeq {
 		return eq(a.T, b.T)
 	}
+	if a.K == KArr && b.K == KArr {
+		// contracts compare stored arrays as whole values (indices outside the
+		// array length are unobservable)
+		la, lb := leaves(a), leaves(b)
+		if len(la) == len(lb) {
+			var cs []string
+			for i := range la {
+				cs = append(cs, eq(la[i].T, lb[i].T))
+			}
+			return and(cs...)
+		}
+	}
 	if a.K == KSlice && b.K == KSlice && !isNilVal(a) && !isNilVal(b) {
 		// in contracts == on slices means "the same slice" (same backing array, window)
 		return and(eq(a.Fs[0].T, b.Fs[0].T), eq(a.Fs[1].T, b.Fs[1].T), eq(a.Fs[2].T, b.Fs[2].T))
